@@ -328,8 +328,26 @@ func runC16(p *Program, r *Report) {
 	r.Check(badFail == "" && nFail >= 2, rule, "failure paths return an error", pos, fmt.Sprintf("all %d other paths (a failed read at each of the read sites, or a wrong signature) return a non-nil error", nFail), "failure path does not return a non-nil error: "+badFail+fmt.Sprintf(" (%d failing paths)", nFail))
 
 	// reserved bytes 10,11 and 100..127 feed no field
+	// (the fields of the statement's table; a field added next to them — say the iccMAX
+	// spectral ranges that live in bytes 100..127 — is outside the statement)
 	used := map[string]bool{}
-	collectAtoms(hv, used)
+	tableFields := map[string]bool{"ProfileSize": true, "PreferredCMM": true, "Version": true, "DeviceClass": true, "DataColorSpace": true,
+		"ProfileConnectionSpace": true, "CreatedAt": true, "PrimaryPlatform": true, "Embedded": true, "DependsOnEmbeddedData": true,
+		"DeviceManufacturer": true, "DeviceModel": true, "DeviceAttributes": true, "RenderingIntent": true, "PCSIlluminant": true,
+		"ProfileCreator": true, "ProfileID": true}
+	if ha, ok := hv.(*Agg); ok {
+		if hs, ok := hdrT.Underlying().(*types.Struct); ok && hs.NumFields() == len(ha.Elems) {
+			for i := 0; i < hs.NumFields(); i++ {
+				if tableFields[hs.Field(i).Name()] {
+					collectAtoms(ha.Elems[i], used)
+				}
+			}
+		} else {
+			collectAtoms(hv, used)
+		}
+	} else {
+		collectAtoms(hv, used)
+	}
 	leak := ""
 	for a := range used {
 		var k int
